@@ -9,6 +9,8 @@ open Std
 
 namespace DD
 
+variable {off : Bool}
+
 theorem AM.bind_eq (x : AM α) (f : α → AM β) (a : AMgr) :
     (x >>= f) a = match x a with
       | (.ok v, a1) => f v a1
@@ -41,9 +43,9 @@ theorem contains_false_of_none {t : TreeMap Nat Int} {j : Nat} (h : t[j]? = none
 
 /-! ### total step lemmas (no assumption on the outcome) -/
 
-theorem liftM_total {op : M α} (hs : CoreKeeps op) (a : AMgr) (hi : AInv a)
+theorem liftM_total {op : M α} (hs : CoreKeeps off op) (a : AMgr) (hi : AInv off a)
     (r : Except Err α) (a' : AMgr) (he : AM.liftM op a = (r, a')) :
-    AInv a' ∧ a'.handles = a.handles ∧
+    AInv off a' ∧ a'.handles = a.handles ∧
     (∀ (j : Nat) (u : Int), a.handles[j]? = some u →
       a'.m.tbl.Mem u ∧ ∀ asg, denN a'.m.tbl u asg = denN a.m.tbl u asg) := by
   unfold AM.liftM at he
@@ -52,14 +54,14 @@ theorem liftM_total {op : M α} (hs : CoreKeeps op) (a : AMgr) (hi : AInv a)
     rw [hop] at he
     simp only at he
     cases he
-    obtain ⟨h1, h2, h3⟩ := hs.keeps a.m (aext a) hi.inv hi.counts r m' hop
-    obtain ⟨i', hd⟩ := hi.after_core h1 h2 h3
+    obtain ⟨h1, h2, h3, h4⟩ := hs.keeps a.m (hext a) hi.mode hi.inv hi.counts r m' hop
+    obtain ⟨i', hd⟩ := hi.after_core h1 h2 h3 h4
     exact ⟨i', rfl, hd⟩
 
 /-- `wrapF` / `wrap` with a free id, whatever the integer -/
-theorem wrap_step (a : AMgr) (t : Nat) (u : Int) (hi : AInv a) (hf : a.handles[t]? = none)
+theorem wrap_step (a : AMgr) (t : Nat) (u : Int) (hi : AInv off a) (hf : a.handles[t]? = none)
     (r : Except Err Unit) (a' : AMgr) (he : wrap t u a = (r, a') ∨ wrapF t u a = (r, a')) :
-    AInv a' ∧ a'.m.tbl = a.m.tbl ∧ (∀ j : Nat, j ≠ t → a'.handles[j]? = a.handles[j]?) ∧
+    AInv off a' ∧ a'.m.tbl = a.m.tbl ∧ (∀ j : Nat, j ≠ t → a'.handles[j]? = a.handles[j]?) ∧
     ((r = .ok () ∧ a'.handles[t]? = some u) ∨ ((∃ e, r = .error e) ∧ a' = a)) := by
   have hfc := contains_false_of_none hf
   by_cases hu : a.m.tbl.Mem u
@@ -83,9 +85,9 @@ theorem wrap_step (a : AMgr) (t : Nat) (u : Int) (hi : AInv a) (hf : a.handles[t
     exact ⟨hi, rfl, fun _ _ => rfl, Or.inr ⟨⟨_, rfl⟩, rfl⟩⟩
 
 /-- `drop`, whether or not the id is in use -/
-theorem drop_step (a : AMgr) (t : Nat) (hi : AInv a) (r : Except Err Unit) (a' : AMgr)
+theorem drop_step (a : AMgr) (t : Nat) (hi : AInv off a) (r : Except Err Unit) (a' : AMgr)
     (he : drop t a = (r, a')) :
-    AInv a' ∧ a'.m.tbl = a.m.tbl ∧ (∀ j : Nat, j ≠ t → a'.handles[j]? = a.handles[j]?) ∧
+    AInv off a' ∧ a'.m.tbl = a.m.tbl ∧ (∀ j : Nat, j ≠ t → a'.handles[j]? = a.handles[j]?) ∧
     a'.handles[t]? = none := by
   cases hl : a.handles[t]? with
   | none =>
@@ -105,31 +107,31 @@ theorem drop_step (a : AMgr) (t : Nat) (hi : AInv a) (r : Except Err Unit) (a' :
 
 /-- the state `b` reached from `a` inside an operation: the ids in `T` (temporaries and
 results) were free in `a`, every other id is as in `a`, live `Function`s of `a` keep their meaning -/
-structure Ch (T : List Nat) (a b : AMgr) : Prop where
-  inv : AInv b
+structure Ch (off : Bool) (T : List Nat) (a b : AMgr) : Prop where
+  inv : AInv off b
   fresh : ∀ t, t ∈ T → a.handles[t]? = none
   same : ∀ j : Nat, j ∉ T → b.handles[j]? = a.handles[j]?
   den : ∀ (j : Nat) (u : Int), a.handles[j]? = some u →
     b.m.tbl.Mem u ∧ ∀ asg, denN b.m.tbl u asg = denN a.m.tbl u asg
 
-theorem Ch.refl {a : AMgr} (hi : AInv a) : Ch [] a a :=
+theorem Ch.refl {a : AMgr} (hi : AInv off a) : Ch off [] a a :=
   ⟨hi, (fun _ h => nomatch h), fun _ _ => rfl, fun j u hj => ⟨hi.hmem j u hj, fun _ => rfl⟩⟩
 
-theorem Ch.live {T : List Nat} {a b : AMgr} (c : Ch T a b) {j : Nat} {u : Int}
+theorem Ch.live {T : List Nat} {a b : AMgr} (c : Ch off T a b) {j : Nat} {u : Int}
     (hj : a.handles[j]? = some u) : b.handles[j]? = some u := by
   have : j ∉ T := fun hm => by rw [c.fresh j hm] at hj; cases hj
   rw [c.same j this]; exact hj
 
-theorem Ch.free {T : List Nat} {a b : AMgr} (c : Ch T a b) {t : Nat} (ht : b.handles[t]? = none) :
+theorem Ch.free {T : List Nat} {a b : AMgr} (c : Ch off T a b) {t : Nat} (ht : b.handles[t]? = none) :
     a.handles[t]? = none := by
   by_cases hm : t ∈ T
   · exact c.fresh t hm
   · rw [← c.same t hm]; exact ht
 
 /-- a core operation in the middle of an autoref operation -/
-theorem Ch.core {T : List Nat} {a b : AMgr} (c : Ch T a b) {op : M α} (hs : CoreKeeps op)
+theorem Ch.core {T : List Nat} {a b : AMgr} (c : Ch off T a b) {op : M α} (hs : CoreKeeps off op)
     {r : Except Err α} {b' : AMgr} (he : AM.liftM op b = (r, b')) :
-    Ch T a b' ∧ b'.handles = b.handles := by
+    Ch off T a b' ∧ b'.handles = b.handles := by
   obtain ⟨i', hh, hd⟩ := liftM_total hs b c.inv r b' he
   refine ⟨⟨i', c.fresh, fun j hj => by rw [hh]; exact c.same j hj, fun j u hj => ?_⟩, hh⟩
   obtain ⟨m1, d1⟩ := c.den j u hj
@@ -137,10 +139,10 @@ theorem Ch.core {T : List Nat} {a b : AMgr} (c : Ch T a b) {op : M α} (hs : Cor
   exact ⟨m2, fun asg => (d2 asg).trans (d1 asg)⟩
 
 /-- creating a `Function` with a free id -/
-theorem Ch.wrap {T : List Nat} {a b : AMgr} (c : Ch T a b) {t : Nat} {u : Int}
+theorem Ch.wrap {T : List Nat} {a b : AMgr} (c : Ch off T a b) {t : Nat} {u : Int}
     (hf : b.handles[t]? = none) {r : Except Err Unit} {b' : AMgr}
     (he : wrap t u b = (r, b') ∨ wrapF t u b = (r, b')) :
-    Ch (t :: T) a b' ∧ b'.m.tbl = b.m.tbl ∧ (∀ j : Nat, j ≠ t → b'.handles[j]? = b.handles[j]?) ∧
+    Ch off (t :: T) a b' ∧ b'.m.tbl = b.m.tbl ∧ (∀ j : Nat, j ≠ t → b'.handles[j]? = b.handles[j]?) ∧
     ((r = .ok () ∧ b'.handles[t]? = some u) ∨ ((∃ e, r = .error e) ∧ b' = b)) := by
   obtain ⟨i', ht, hfr, hres⟩ := wrap_step b t u c.inv hf r b' he
   refine ⟨⟨i', ?_, ?_, ?_⟩, ht, hfr, hres⟩
@@ -156,9 +158,9 @@ theorem Ch.wrap {T : List Nat} {a b : AMgr} (c : Ch T a b) {t : Nat} {u : Int}
     rw [ht]; exact c.den j v hj
 
 /-- dropping an id that was free at the beginning of the operation (a temporary) -/
-theorem Ch.drop {T : List Nat} {a b : AMgr} (c : Ch T a b) {t : Nat} (hT : t ∈ T)
+theorem Ch.drop {T : List Nat} {a b : AMgr} (c : Ch off T a b) {t : Nat} (hT : t ∈ T)
     {r : Except Err Unit} {b' : AMgr} (he : drop t b = (r, b')) :
-    Ch T a b' ∧ b'.m.tbl = b.m.tbl ∧ (∀ j : Nat, j ≠ t → b'.handles[j]? = b.handles[j]?) ∧
+    Ch off T a b' ∧ b'.m.tbl = b.m.tbl ∧ (∀ j : Nat, j ≠ t → b'.handles[j]? = b.handles[j]?) ∧
     b'.handles[t]? = none := by
   obtain ⟨i', ht, hfr, hn⟩ := drop_step b t c.inv r b' he
   refine ⟨⟨i', c.fresh, ?_, ?_⟩, ht, hfr, hn⟩
@@ -169,21 +171,21 @@ theorem Ch.drop {T : List Nat} {a b : AMgr} (c : Ch T a b) {t : Nat} (hT : t ∈
     rw [ht]; exact c.den j v hj
 
 /-- an operation that leaves the registry exactly as it found it -/
-def AKeeps0 (x : AM α) : Prop :=
-  ∀ a, AInv a → ∀ r a', x a = (r, a') →
-    AInv a' ∧ (∀ j : Nat, a'.handles[j]? = a.handles[j]?) ∧
+def AKeeps0 (off : Bool) (x : AM α) : Prop :=
+  ∀ a, AInv off a → ∀ r a', x a = (r, a') →
+    AInv off a' ∧ (∀ j : Nat, a'.handles[j]? = a.handles[j]?) ∧
     (∀ (j : Nat) (u : Int), a.handles[j]? = some u →
       a'.m.tbl.Mem u ∧ ∀ asg, denN a'.m.tbl u asg = denN a.m.tbl u asg)
 
-theorem AKeeps0.keeps {x : AM α} (h0 : AKeeps0 x) (h : Nat) : AKeeps h x :=
+theorem AKeeps0.keeps {x : AM α} (h0 : AKeeps0 off x) (h : Nat) : AKeeps off h x :=
   fun a hi _ r a' he =>
     let ⟨i, s, d⟩ := h0 a hi r a' he
     ⟨i, fun j _ => s j, d⟩
 
 /-- the end of a chain: every id of `T` is free again -/
-theorem Ch.close {T : List Nat} {a b : AMgr} (c : Ch T a b)
+theorem Ch.close {T : List Nat} {a b : AMgr} (c : Ch off T a b)
     (hz : ∀ t, t ∈ T → b.handles[t]? = none) :
-    AInv b ∧ (∀ j : Nat, b.handles[j]? = a.handles[j]?) ∧
+    AInv off b ∧ (∀ j : Nat, b.handles[j]? = a.handles[j]?) ∧
     (∀ (j : Nat) (u : Int), a.handles[j]? = some u →
       b.m.tbl.Mem u ∧ ∀ asg, denN b.m.tbl u asg = denN a.m.tbl u asg) := by
   refine ⟨c.inv, fun j => ?_, c.den⟩
@@ -191,7 +193,7 @@ theorem Ch.close {T : List Nat} {a b : AMgr} (c : Ch T a b)
   · rw [hz j hj, c.fresh j hj]
   · exact c.same j hj
 
-theorem AKeeps0.of_read {x : AM α} (hx : ARead x) : AKeeps0 x := by
+theorem AKeeps0.of_read {x : AM α} (hx : ARead x) : AKeeps0 off x := by
   intro a hi r a' he
   have : a' = a := by have := hx a; rw [he] at this; exact this
   subst this
@@ -218,12 +220,12 @@ theorem forall_mem3 {P : Nat → Prop} {x y z : Nat} (hx : P x) (hy : P y) (hz :
   rcases ht with rfl | rfl | rfl <;> assumption
 
 /-- `t2 = other | t1` -/
-theorem fLeOr_ch (cs : CoreSpecs) {T : List Nat} {a b : AMgr} (c : Ch T a b) (ho : Nat) (n1 : Int)
+theorem fLeOr_ch (hor : ∀ u v, CoreKeeps off (apply "or" u (some v) none)) {T : List Nat} {a b : AMgr} (c : Ch off T a b) (ho : Nat) (n1 : Int)
     (t2 : Nat) (hf : b.handles[t2]? = none) (r : Except Err Int) (b' : AMgr)
     (he : fLeOr ho n1 t2 b = (r, b')) :
-    Ch (t2 :: T) a b' ∧ (∀ j : Nat, j ≠ t2 → b'.handles[j]? = b.handles[j]?) ∧
+    Ch off (t2 :: T) a b' ∧ (∀ j : Nat, j ≠ t2 → b'.handles[j]? = b.handles[j]?) ∧
     ((∃ n, r = .ok n ∧ b'.handles[t2]? = some n) ∨ ((∃ e, r = .error e) ∧ b'.handles[t2]? = none)) := by
-  have c0 : Ch (t2 :: T) a b := by
+  have c0 : Ch off (t2 :: T) a b := by
     refine ⟨c.inv, ?_, fun j hj => c.same j (fun h => hj (List.mem_cons_of_mem _ h)), c.den⟩
     intro t ht
     rcases List.mem_cons.mp ht with h | h
@@ -247,7 +249,7 @@ theorem fLeOr_ch (cs : CoreSpecs) {T : List Nat} {a b : AMgr} (c : Ch T a b) (ho
       cases hx2 : AM.liftM (apply "or" o (some n1) none) b1 with
       | mk r2 b2 =>
         rw [hx2] at he
-        obtain ⟨c2, hh2⟩ := c.core (cs.apply "or" o (some n1) none) hx2
+        obtain ⟨c2, hh2⟩ := c.core (hor o n1) hx2
         have hf2 : b2.handles[t2]? = none := by rw [hh2]; exact hf
         cases r2 with
         | error e =>
@@ -275,7 +277,9 @@ theorem fLeOr_ch (cs : CoreSpecs) {T : List Nat} {a b : AMgr} (c : Ch T a b) (ho
               exact ⟨c3, hfr, Or.inr ⟨⟨_, rfl⟩, hf2⟩⟩
 
 /-- `Function.__le__`: the three temporaries are released; nothing else changes -/
-theorem fLe_keeps0 (cs : CoreSpecs) (hs ho : Nat) : AKeeps0 (fLe hs ho) := by
+theorem fLe_keeps0 (hnot : ∀ u, CoreKeeps off (apply "not" u none none))
+    (hor : ∀ u v, CoreKeeps off (apply "or" u (some v) none)) (hs ho : Nat) :
+    AKeeps0 off (fLe hs ho) := by
   intro a hi r a' he
   unfold fLe at he
   rw [AM.bind_eq] at he
@@ -298,7 +302,7 @@ theorem fLe_keeps0 (cs : CoreSpecs) (hs ho : Nat) : AKeeps0 (fLe hs ho) := by
       cases hx3 : AM.liftM (apply "not" s none none) a1 with
       | mk r3 a3 =>
         rw [hx3] at he
-        obtain ⟨c3, hh3⟩ := (Ch.refl hi).core (cs.apply "not" s none none) hx3
+        obtain ⟨c3, hh3⟩ := (Ch.refl hi).core (hnot s) hx3
         cases r3 with
         | error e =>
           simp only at he; cases he
@@ -322,7 +326,7 @@ theorem fLe_keeps0 (cs : CoreSpecs) (hs ho : Nat) : AKeeps0 (fLe hs ho) := by
               | mk r5 a5 =>
                 rw [hx5] at he
                 simp only at he
-                obtain ⟨c5, hfr5, hres5⟩ := fLeOr_ch cs c4 ho n1 t2 hn2 r5 a5 hx5
+                obtain ⟨c5, hfr5, hres5⟩ := fLeOr_ch hor c4 ho n1 t2 hn2 r5 a5 hx5
                 have h21 : t1 ≠ t2 := fun h => by rw [h, hn2] at hl4; cases hl4
                 cases hx6 : drop t1 a5 with
                 | mk r6 a6 =>
@@ -352,7 +356,7 @@ theorem fLe_keeps0 (cs : CoreSpecs) (hs ho : Nat) : AKeeps0 (fLe hs ho) := by
                           obtain ⟨c8, _, hfr8, hz8⟩ :=
                             c7.drop (List.mem_cons_of_mem _ List.mem_cons_self) hx8
                           have hfinal : ∀ (r9 : Except Err Unit) (a9 : AMgr), drop t3 a8 = (r9, a9) →
-                              AInv a9 ∧ (∀ j : Nat, a9.handles[j]? = a1.handles[j]?) ∧
+                              AInv off a9 ∧ (∀ j : Nat, a9.handles[j]? = a1.handles[j]?) ∧
                               (∀ (j : Nat) (u : Int), a1.handles[j]? = some u →
                                 a9.m.tbl.Mem u ∧ ∀ asg, denN a9.m.tbl u asg = denN a1.m.tbl u asg) := by
                             intro r9 a9 hx9
@@ -403,13 +407,13 @@ theorem fLe_keeps0 (cs : CoreSpecs) (hs ho : Nat) : AKeeps0 (fLe hs ho) := by
               subst hb4
               exact c3.close (fun _ h => nomatch h)
 
-theorem AKeeps0.toL {x : AM α} (h0 : AKeeps0 x) : AKeepsL [] x :=
+theorem AKeeps0.toL {x : AM α} (h0 : AKeeps0 off x) : AKeepsL off [] x :=
   fun a hi _ r a' he =>
     let ⟨i, s, d⟩ := h0 a hi r a' he
     ⟨i, fun j _ => s j, d⟩
 
-theorem AKeeps0.then_read {x : AM α} {f : α → AM β} (hx : AKeeps0 x) (hf : ∀ v, ARead (f v)) :
-    AKeeps0 (x >>= f) := by
+theorem AKeeps0.then_read {x : AM α} {f : α → AM β} (hx : AKeeps0 off x) (hf : ∀ v, ARead (f v)) :
+    AKeeps0 off (x >>= f) := by
   intro a hi r a' he
   rw [AM.bind_eq] at he
   cases hxa : x a with
@@ -435,22 +439,24 @@ theorem fNe_read (hs ho : Nat) : ARead (fNe hs ho) := by
   exact ARead.bind (nodeSame_read ho) fun _ => ARead.bind (fEq_read hs ho) fun _ => ARead.pure _
 
 /-- `Function.__lt__` -/
-theorem fLt_keeps0 (cs : CoreSpecs) (hs ho : Nat) : AKeeps0 (fLt hs ho) := by
+theorem fLt_keeps0 (hnot : ∀ u, CoreKeeps off (apply "not" u none none))
+    (hor : ∀ u v, CoreKeeps off (apply "or" u (some v) none)) (hs ho : Nat) :
+    AKeeps0 off (fLt hs ho) := by
   unfold fLt
-  refine (fLe_keeps0 cs hs ho).then_read fun le => ?_
+  refine (fLe_keeps0 hnot hor hs ho).then_read fun le => ?_
   cases le
   · exact ARead.pure _
   · exact fNe_read hs ho
 
 /-- `Function.__eq__`, `__ne__`: reads -/
-theorem fEq_keeps0 (hs ho : Nat) : AKeeps0 (fEq hs ho) := AKeeps0.of_read (fEq_read hs ho)
-theorem fNe_keeps0 (hs ho : Nat) : AKeeps0 (fNe hs ho) := AKeeps0.of_read (fNe_read hs ho)
+theorem fEq_keeps0 (hs ho : Nat) : AKeeps0 off (fEq hs ho) := AKeeps0.of_read (fEq_read hs ho)
+theorem fNe_keeps0 (hs ho : Nat) : AKeeps0 off (fNe hs ho) := AKeeps0.of_read (fNe_read hs ho)
 
 /-- the two wrappers of `BDD.succ` -/
-theorem aSuccWrap_spec (a : AMgr) (hi : AInv a) (h1 h2 : Nat) (v w : Int) (hne : h1 ≠ h2)
+theorem aSuccWrap_spec (a : AMgr) (hi : AInv off a) (h1 h2 : Nat) (v w : Int) (hne : h1 ≠ h2)
     (hf1 : a.handles[h1]? = none) (hf2 : a.handles[h2]? = none)
     (r : Except Err Unit) (a' : AMgr) (he : aSuccWrap h1 h2 v w a = (r, a')) :
-    Ch [h2, h1] a a' ∧
+    Ch off [h2, h1] a a' ∧
     ((r = .ok () ∧ a'.handles[h1]? = some v ∧ a'.handles[h2]? = some w) ∨
      ((∃ e, r = .error e) ∧ a'.handles[h1]? = none ∧ a'.handles[h2]? = none)) := by
   unfold aSuccWrap at he
@@ -459,7 +465,7 @@ theorem aSuccWrap_spec (a : AMgr) (hi : AInv a) (h1 h2 : Nat) (v w : Int) (hne :
   | mk r1 a1 =>
     rw [hx1] at he
     obtain ⟨c1, _, hfr1, hres1⟩ := (Ch.refl hi).wrap hf1 (Or.inl hx1)
-    have c1' : Ch [h2, h1] a a1 := by
+    have c1' : Ch off [h2, h1] a a1 := by
       refine ⟨c1.inv, forall_mem2 hf2 hf1, fun j hj => ?_, c1.den⟩
       exact c1.same j (fun h => hj (List.mem_cons_of_mem _ h))
     rcases hres1 with ⟨hr1, hl1⟩ | ⟨⟨e, hr1⟩, hb1⟩
@@ -493,13 +499,13 @@ theorem aSuccWrap_spec (a : AMgr) (hi : AInv a) (h1 h2 : Nat) (v w : Int) (hne :
       exact ⟨c1', Or.inr ⟨⟨_, rfl⟩, hf1, hf2⟩⟩
 
 /-- `BDD.succ(u)`: at most the two given handles are created (both or none) -/
-theorem aSucc_keepsL (hu h1 h2 : Nat) (hne : h1 ≠ h2) : AKeepsL [h1, h2] (aSucc hu h1 h2) := by
+theorem aSucc_keepsL (hu h1 h2 : Nat) (hne : h1 ≠ h2) : AKeepsL off [h1, h2] (aSucc hu h1 h2) := by
   intro a hi hf r a' he
   have hf1 : a.handles[h1]? = none :=
     TreeMap.getElem?_eq_none_of_contains_eq_false (hf h1 List.mem_cons_self)
   have hf2 : a.handles[h2]? = none :=
     TreeMap.getElem?_eq_none_of_contains_eq_false (hf h2 (List.mem_cons_of_mem _ List.mem_cons_self))
-  have trivial_case : ∀ {β : Type} (r : Except Err β), AInv a ∧ (∀ j : Nat, j ∉ [h1, h2] → a.handles[j]? = a.handles[j]?) ∧
+  have trivial_case : ∀ {β : Type} (r : Except Err β), AInv off a ∧ (∀ j : Nat, j ∉ [h1, h2] → a.handles[j]? = a.handles[j]?) ∧
       (∀ (j : Nat) (u : Int), a.handles[j]? = some u →
         a.m.tbl.Mem u ∧ ∀ asg, denN a.m.tbl u asg = denN a.m.tbl u asg) :=
     fun _ => ⟨hi, fun _ _ => rfl, fun j u hj => ⟨hi.hmem j u hj, fun _ => rfl⟩⟩
@@ -537,7 +543,7 @@ theorem aSucc_keepsL (hu h1 h2 : Nat) (hne : h1 ≠ h2) : AKeepsL [h1, h2] (aSuc
             | mk r3 a3 =>
               rw [hx3] at he
               obtain ⟨c3, _⟩ := aSuccWrap_spec a2 hi h1 h2 v w hne hf1 hf2 r3 a3 hx3
-              have fin : AInv a3 ∧ (∀ j : Nat, j ∉ [h1, h2] → a3.handles[j]? = a2.handles[j]?) ∧
+              have fin : AInv off a3 ∧ (∀ j : Nat, j ∉ [h1, h2] → a3.handles[j]? = a2.handles[j]?) ∧
                   (∀ (j : Nat) (u : Int), a2.handles[j]? = some u →
                     a3.m.tbl.Mem u ∧ ∀ asg, denN a3.m.tbl u asg = denN a2.m.tbl u asg) := by
                 refine ⟨c3.inv, fun j hj => c3.same j (fun h => hj ?_), c3.den⟩
